@@ -18,6 +18,10 @@ type Pred interface {
 	Param(t *Tape) int
 }
 
+// FreePred is implemented by predicates that must still be waited for when
+// the scheduler is in free-running (calibration) mode.
+type FreePred interface{ ReadyNow() bool }
+
 // Gate flags.
 const (
 	FlagSlow   = 1 // chosen only when no ordinary cell is enabled (buggify: delay this side here)
@@ -63,6 +67,7 @@ type Sched struct {
 	MaxSteps  int
 	HangAfter time.Duration
 	KeepTrace bool
+	Free      bool // calibration world: gates do not park
 
 	cells  []cell
 	ncells int32
@@ -219,6 +224,18 @@ func (s *Sched) Gate(key string, pred Pred) int { return s.GateOpt(key, pred, 0)
 
 // GateOpt is Gate with flags (FlagSlow, FlagDaemon).
 func (s *Sched) GateOpt(key string, pred Pred, flags int) int {
+	if s.Free {
+		// calibration world: nothing is scheduled, goroutines run freely
+		if flags&FlagDaemon != 0 {
+			runtime.Goexit()
+		}
+		if fp, ok := pred.(FreePred); ok {
+			for !fp.ReadyNow() {
+				time.Sleep(time.Microsecond)
+			}
+		}
+		return 0
+	}
 	if s.isDead() {
 		runtime.Goexit()
 	}
@@ -471,3 +488,19 @@ func (s *Sched) Elapsed() time.Duration { return time.Since(s.Start) }
 //go:norace
 //go:noinline
 func (s *Sched) StepNow() int { return s.Steps }
+
+// RunFree is the calibration world's substitute for Run: it only waits until
+// every task has finished (or the fake-time bound passes).
+func (s *Sched) RunFree(bound time.Duration) Status {
+	s.Start = time.Now()
+	for {
+		synctest.Wait()
+		if s.liveTasks() == 0 {
+			return Done
+		}
+		if time.Since(s.Start) > bound {
+			return Hang
+		}
+		time.Sleep(100 * time.Microsecond)
+	}
+}
